@@ -44,6 +44,14 @@ def project(o) -> Dict[str, Any]:
             st[f"buffer:{n}"] = (b.detach().clone(), b._version)
         st["modules"] = tuple((n, id(m)) for n, m in o.named_modules())
         st["training"] = o.training
+        # plain configuration attributes (flags, numbers, strings) of the receiver and of its submodules: a submodule may be SHARED with a copy, so a
+        # setter that writes such an attribute in place changes the receiver too (e.g. the align_corners flag of an exponential-map module)
+        for mn, m in o.named_modules():
+            for an, av in vars(m).items():
+                if an.startswith("_") and an not in ("_align_corners", "_stride", "_resize"):
+                    continue
+                if isinstance(av, (bool, int, float, str)) and an != "training":
+                    st[f"attr:{mn}.{an}" if mn else f"attr:{an}"] = av
         if hasattr(o, "grid"):
             st["grid"] = gstate(o.grid())
         if hasattr(o, "condition"):
@@ -188,7 +196,7 @@ def arg_candidates(kind: str, meth: str, pname: str, D: int, recv) -> List[Any]:
         if isinstance(recv, torch.nn.Module):
             return [receivers(D)[kind.split(":")[0]]()]
     table = {
-        "grid": [G2], "to_grid": [G2], "to_cube": [Cube(extent=(2.0, 3.0, 4.0)[:D])], "size": [tuple(s + 2 for s in size), 4], "shape": [tuple(s + 1 for s in sp)],
+        "grid": [G2, G2.align_corners(not G2.align_corners())], "to_grid": [G2], "to_cube": [Cube(extent=(2.0, 3.0, 4.0)[:D])], "size": [tuple(s + 2 for s in size), 4], "shape": [tuple(s + 1 for s in sp)],
         "spacing": [0.75, vec.clone()], "levels": [1, 2], "dims": [(0,)], "margin": [1], "num": [1], "kernel_size": [2], "stride": [2], "padding": [1, "border", 0.5],
         "mode": ["nearest", "linear", "replicate", "unit", "center", "forward_central_differences"], "value": [0.5], "min": [0.1], "max": [0.9],
         "kernel": [torch.tensor([0.25, 0.5, 0.25])], "sigma": [1.0], "points": [pts], "vectors": [pts.clone()], "coords": [pts.clone()], "indices": [pts.clone() + 2],
